@@ -6,27 +6,27 @@ package main
 
 import (
 	"encoding/json"
-	"os"
-	"sort"
 	"fmt"
 	"io"
 	"net/http"
 	"net/url"
+	"os"
 	"regexp"
+	"sort"
 	"strconv"
 	"strings"
 )
 
 type lightCh struct {
-	id                                  int
-	depth, ifl, dfr, req, tmo, msgs     int64
-	paused                              bool
+	id                              int
+	depth, ifl, dfr, req, tmo, msgs int64
+	paused                          bool
 }
 type lightTp struct {
-	id           int
-	depth, msgs  int64
-	paused       bool
-	chans        []lightCh
+	id          int
+	depth, msgs int64
+	paused      bool
+	chans       []lightCh
 }
 
 var reTopicLine = regexp.MustCompile(`^(\*P |   )\[(\S+)\s*\] depth: (\d+)\s+be-depth: (\d+)\s+msgs: (\d+)\s+e2e%:`)
